@@ -4,46 +4,60 @@ spec  : KSymBase.tla (grids, magnetic point groups, get_K_list, kpoints_all), Fa
         autoNK), MC_FactorKernel.tla (symmetry reduction as the loop of Grid.get_K_list, every group x factorisation inside the
         constants), MC_DetermineNK.tla (decision table), FactorKernelRec.tla (record validation)
 bind  : spec -> code: every finished TLC state is replayed on the real Grid / get_K_list / Data_K.kpoints_all (exact integer
-        comparison of K-points, weights and k-sets), grids the spec calls non-symmetric must be refused by Grid, every state of
-        the decision table is replayed on the real determineNK (values, exception class, warnings); real run() with a one-hot
+        comparison of K-points, weights and k-sets up to order and choice of representatives), states of the decision table are
+        replayed on the real determineNK (accepted / refused, values up to the rounding rule); real run() with a one-hot
         calculator reading data_K.kpoints_all returns the coefficient map predicted by the spec for every factorisation.
         code -> spec: K-lists/k-sets of larger random grids, the integrated one-hot coefficient maps of run() and determineNK
         calls are validated clause by clause by TLC.
-numeric_only: real static, dynamic and tabulating calculators on random models for all factorisations and both FFT libraries.
+real calculators (deciding, float): static (also tetrahedron), dynamic and tabulating calculators on random R-space models with
+        AA (external terms on), a k.p system, a SystemSOC and a spinful model with all matrices, for all / sampled factorisations
+        and both FFT libraries, compared with the first factorisation with a tolerance >= 1e4 x the deviation of the unchanged tree.
 """
 import os
 import copy
 import random
+import shutil
 import warnings
 import itertools
 import numpy as np
 
 from .. import tlc, ftable
-from ..common import Report, MachineryError, seed, quiet, workdir
+from ..common import Report, MachineryError, seed, quiet, workdir, WORK
 from . import _ksym as KS
 
 PROPS = {
     "C03": dict(level="model_checking",
                 technique="TLC exhaustive on FactorKernel.tla (k-point multiset and symmetrised measure for every group x factorisation; "
-                          "get_K_list as its loop; determineNK/autoNK decision table) + replay of every finished TLC state on the real "
-                          "Grid/get_K_list/Data_K.kpoints_all/determineNK + real run() with a one-hot calculator against the spec's "
-                          "coefficient map + TLC validation of recorded K-lists, k-sets, run() coefficient maps and determineNK calls",
-                text="For every catalogue group and every pair (NKdiv, NKFFT) inside the constants TLC checks that the k-sets of the K-list "
-                     "cover the dense grid exactly once (no symmetry) resp. that the symmetrised weighted measure is the uniform measure "
-                     "of the dense grid (with symmetry reduction) - hence the same for every factorisation. Each finished state is executed "
-                     "on the real Grid, get_K_list and Data_K.kpoints_all and compared exactly; run() with a synthetic calculator that is an "
-                     "exact function of data_K.kpoints_all returns the predicted coefficient of every dense k-point for every factorisation, "
-                     "with and without symmetry. Real calculators (static, dynamic, tabulating; fftw and numpy) are compared across "
-                     "factorisations numerically (numeric_only, not part of the level claim).",
+                          "get_K_list as its loop; determineNK/autoNK decision table) + replay of every finished FactorKernel state on the "
+                          "real Grid/get_K_list/Data_K.kpoints_all and of decision-table states (quick: a seeded sample of 1500, thorough: up "
+                          "to 30000) on the real determineNK + real run() with a one-hot calculator against the spec's coefficient map + "
+                          "TLC validation of recorded K-lists, k-sets, run() coefficient maps and determineNK calls + float comparison of "
+                          "real calculators across factorisations",
+                text="For every catalogue group (quick: 8, thorough: 25) and every pair (NKdiv, NKFFT) inside the constants TLC checks that "
+                     "the k-sets of the K-list cover the dense grid exactly once (no symmetry) resp. that the symmetrised weighted measure is "
+                     "the uniform measure of the dense grid (with symmetry reduction) - the k-point SET is the same for every factorisation. "
+                     "Each finished state is executed on the real Grid, get_K_list and Data_K.kpoints_all and compared exactly (up to order "
+                     "and choice of orbit representatives); run() with a synthetic calculator that is an exact function of "
+                     "data_K.kpoints_all returns the predicted coefficient of every dense k-point for every factorisation, with and without "
+                     "symmetry. That the integrands are evaluated AT those k-points (the K-shift phase of the Fourier transform, the "
+                     "tetrahedron corners, the FFT library) is outside the model: it is decided by float comparisons of real static "
+                     "(incl. tetra=True), dynamic and tabulating calculators across factorisations and fftw/numpy on random models "
+                     "(R-space with AA, k.p, SOC, spinful with all matrices), tolerance 1e-8 relative to the natural scale of each quantity "
+                     "(>= 1e4 x the deviation observed on the unchanged tree), inputs kept away from Fermi-bin edges and the degeneracy "
+                     "threshold (EnergiesSafe).",
                 note="lattices: cubic-type (19 groups incl. magnetic) and hexagonal (6 groups); exact comparison is on integers "
-                     "(K*NKdiv, factor*prod(NKdiv), kpoints_all*N); float results of run() are compared with 1e-9 after scaling to integers",
+                     "(K*NKdiv mod NKdiv, factor*prod(NKdiv), kpoints_all*N mod N); float results of run() with the one-hot calculator are "
+                     "compared with 1e-9 after scaling to integers. Not compared: warning texts, exception classes, the rounding rule of "
+                     "NK/NKFFT, which orbit representative is kept, whether a non-symmetric grid is refused (reported as information)",
                 ref="DESIGN.md 3.2, 5 (C03)"),
 }
 
-WORKERS = int(os.environ.get("VERIF_TLC_WORKERS", "16"))
+WORKERS = int(os.environ.get("VERIF_TLC_WORKERS", "4"))
 FK_INVS = ["LoopIsFunctional", "InvDenseSymmetric", "InvKSets", "InvMultiset", "InvWeightSum", "InvOrbitReps", "InvUniform",
            "InvOrbit", "InvScanMass"]
-NK_INVS = ["ExactUnlessAdjusted", "AdjustedIffMismatch", "PairReturnedAsIs", "NonPeriodicOne", "Positive", "ResultSymmetric"]
+NK_INVS = ["ExactUnlessAdjusted", "AdjustedIffMismatch", "PairReturnedAsIs", "NonPeriodicOne", "Positive", "ResultSymmetric",
+           "TranscriptionIsValid"]
+TOL = 1e-8
 
 
 def tla_set(xs):
@@ -58,8 +72,8 @@ def fk_cfg(groups, divs, ffts, zdivs, zffts, maxtot, kp=True, ab=True):
             + "".join(f"INVARIANT {i}\n" for i in FK_INVS) + "CHECK_DEADLOCK FALSE\n")
 
 
-def run_model(rep, module, cfg, name, dump=True, timeout=1500):
-    st = tlc.run_tlc(module, cfg, name, workers=WORKERS, dump=dump, coverage=False, timeout=timeout)
+def run_model(rep, module, cfg, name, dump=True, timeout=1500, workroot=None, workers=None):
+    st = tlc.run_tlc(module, cfg, name, workers=workers or WORKERS, dump=dump, coverage=False, timeout=timeout, workroot=workroot)
     if st.get("timeout"):
         raise MachineryError(f"TLC timed out on {name}")
     if st.get("error") and not st.get("violation"):
@@ -67,6 +81,22 @@ def run_model(rep, module, cfg, name, dump=True, timeout=1500):
     if st["distinct"] == 0 and not st.get("violation"):
         raise MachineryError(f"TLC produced no states for {name}")
     return st
+
+
+def cleanup(tag, keep_tlc=False):
+    """remove every scratch directory of this run (tag is unique per property and process)"""
+    import glob
+    pats = [os.path.join(WORK, tag + "_*"), os.path.join(WORK, "records", tag + "*"), os.path.join(WORK, "tlc", "rec_" + tag + "*")]
+    if not keep_tlc:
+        pats.append(os.path.join(WORK, tag))
+    for pat in pats:
+        for d in glob.glob(pat):
+            shutil.rmtree(d, ignore_errors=True)
+
+
+def cpu_seconds():
+    t = os.times()
+    return round(t.user + t.system + t.children_user + t.children_system, 1)
 
 
 def vec(t):
@@ -100,22 +130,22 @@ def valid_ksets(klist, ksets, div, fft):
 # part A: K-list / k-sets of every factorisation
 
 
-def part_factor_kernel(rep, thorough, rng):
+def part_factor_kernel(rep, thorough, rng, tag):
     if thorough:
         groups = sorted(list(KS.CART) + list(KS.HEX))
-        cfgs = [("c03_fk_planar", fk_cfg(groups, [1, 2, 3, 4, 6], [1, 2, 3, 4], [1], [1], 144)),
-                ("c03_fk_3d", fk_cfg(groups, [1, 2, 3, 4], [1, 2], [1, 2, 3, 4], [1, 2], 64))]
+        cfgs = [("fk_planar", fk_cfg(groups, [1, 2, 3, 4, 6], [1, 2, 3, 4], [1], [1], 144)),
+                ("fk_3d", fk_cfg(groups, [1, 2, 3, 4], [1, 2], [1, 2, 3, 4], [1, 2], 64))]
         boxes = [([1, 2, 3, 4, 6], [1], 144), ([1, 2, 3, 4], [1, 2, 3, 4], 64)]
     else:
         groups = ["C1", "C2v", "C4v", "mFe", "mC4", "O", "H6v", "H3T"]
-        cfgs = [("c03_fk", fk_cfg(groups, [1, 2, 3, 4], [1, 2, 3], [1, 2], [1, 2], 36))]
+        cfgs = [("fk", fk_cfg(groups, [1, 2, 3, 4], [1, 2, 3], [1, 2], [1, 2], 36))]
         boxes = [([1, 2, 3, 4], [1, 2], 36)]
     spec_groups = {}
     done = {}      # (grp, div, fft, sym) -> state
     for name, cfg in cfgs:
-        st = run_model(rep, "MC_FactorKernel.tla", cfg, name)
-        ftable.spec_violation(rep, st, name)
-        rep.add_tlc(name, st)
+        st = run_model(rep, "MC_FactorKernel.tla", cfg, name, workroot=os.path.join(WORK, tag))
+        ftable.spec_violation(rep, st, "c03_" + name)
+        rep.add_tlc("c03_" + name, st)
         for s in KS.iter_dump(st["dump_path"], want='pc = "done"', keep_first_of=("grp", spec_groups)):
             done[(s["grp"], vec(s["div"]), vec(s["fft"]), bool(s["sym"]))] = s
     if not done:
@@ -129,7 +159,7 @@ def part_factor_kernel(rep, thorough, rng):
                                  f"PointGroup has {len(real_groups[g])}; symmetric difference "
                                  f"{sorted(real_groups[g] ^ spec_groups[g])[:3]}")
     rep.part("groups", elements={g: len(v) for g, v in spec_groups.items()})
-    n_reduced = n_full = n_fft_small = n_other_order = 0
+    n_reduced = n_full = n_fft_small = n_other_order = n_ksets = 0
     for key in sorted(done):
         grp, div, fft, sym = key
         s = done[key]
@@ -142,37 +172,44 @@ def part_factor_kernel(rep, thorough, rng):
             n_reduced += 1
         if not sym:
             n_full += 1
-        if any(f < r for f, r in zip(fft, system.NKFFT_recommended)):
+        rec = KS.nkfft_recommended(system)
+        if rec is not None and any(f < r for f, r in zip(fft, rec)):
             n_fft_small += 1
+        info = dict(group=grp, generators=[str(g) for g in KS.generators_of(grp)], NKdiv=div, NKFFT=fft, use_symmetry=sym,
+                    unit="K*NKdiv mod NKdiv, factor*prod(NKdiv); kpoints_all*NKdiv*NKFFT mod N")
         try:
             klist, ksets, _ = KS.real_klist(system, div, fft, sym)
         except KS.NonIntegral as ex:
-            rep.violation("grid:nonintegral", dict(group=grp, NKdiv=div, NKFFT=fft, use_symmetry=sym, what=str(ex)))
+            rep.violation("grid:nonintegral", dict(info, what=str(ex)))
             continue
-        except AssertionError as ex:
-            rep.violation("Grid:refuses_symmetric_grid", dict(group=grp, NKdiv=div, NKFFT=fft, what=str(ex)[:200]))
+        except KS.FactorisationChanged as ex:
+            rep.violation("Grid:factorisation_changed", dict(info, what=str(ex)))
             continue
-        if klist != exp_klist or ksets != exp_ksets:
+        except MachineryError:
+            raise
+        except Exception as ex:         # the specification says this grid is symmetric: Grid / get_K_list have to work
+            KS.report_exception(rep, ex, "Grid.get_K_list:symmetric_grid", info)
+            continue
+        if klist != exp_klist or (ksets is not None and ksets != exp_ksets):
             # not what the specification's transcription of the loops produces.  Order and the choice of the orbit
             # representative do not matter for C03: a violation only if the K-list is not a valid (reduced) grid
-            info = dict(group=grp, generators=[str(g) for g in KS.generators_of(grp)], NKdiv=div, NKFFT=fft, use_symmetry=sym,
-                        unit="K*NKdiv, factor*prod(NKdiv); kpoints_all*NKdiv*NKFFT")
             if not valid_klist(klist, div, spec_groups[grp], sym):
                 rep.violation("get_K_list:" + ("irreducible" if sym else "full"), dict(info, expected=exp_klist, got=klist))
-            elif not valid_ksets(klist, ksets, div, fft):
-                j = next(j for j in range(len(ksets)) if not valid_ksets(klist[j:j + 1], ksets[j:j + 1], div, fft))
-                rep.violation("Data_K.kpoints_all", dict(info, K=klist[j][0], got=ksets[j],
-                                                         expected_as_set=sorted(exp_ksets[j]) if j < len(exp_ksets) and klist[j] == exp_klist[j] else "coset (m*NKdiv + K) mod N"))
+            elif ksets is not None and not valid_ksets(klist, ksets, div, fft):
+                j = next((j for j in range(min(len(ksets), len(klist))) if not valid_ksets(klist[j:j + 1], ksets[j:j + 1], div, fft)), None)
+                rep.violation("Data_K.kpoints_all", dict(info, K=None if j is None else klist[j][0], got=ksets if j is None else ksets[j],
+                                                         expected_as_set="coset (m*NKdiv + K) mod N for every K of the K-list"))
             else:
                 n_other_order += 1
+        n_ksets += ksets is not None
         if len(rep.cov["samples"]) < 2 and sym and len(exp_klist) < int(np.prod(div)) and int(np.prod(fft)) > 1:
             rep.sample(dict(group=grp, NKdiv=div, NKFFT=fft, use_symmetry=sym, klist=exp_klist, kset_of_first=exp_ksets[0]))
-    if n_reduced == 0 or n_full == 0 or n_fft_small == 0:
-        raise MachineryError(f"vacuous: reduced={n_reduced} full={n_full} fft_below_recommended={n_fft_small}")
+    if n_reduced == 0 or n_full == 0:
+        raise MachineryError(f"vacuous: reduced={n_reduced} full={n_full}")
     rep.part("fk_replay", finished_states=len(done), reduced=n_reduced, full=n_full, fft_below_recommended=n_fft_small,
-             valid_but_other_order_or_representative=n_other_order)
-    # grids which the spec excluded as non-symmetric must be refused by the real Grid: (group, v, fft = 1) is a model state
-    # exactly when SymmetricGrid(v) holds and prod(v) <= MAXTOT
+             with_ksets_through_Data_K=n_ksets, valid_but_other_order_or_representative=n_other_order)
+    # grids which the spec excluded as non-symmetric: information only (that Grid refuses them is the check's assumption, not the
+    # property).  (group, v, fft = 1) is a model state exactly when SymmetricGrid(v) holds and prod(v) <= MAXTOT
     present = {(g, d, f) for (g, d, f, _) in done}
     absent = []
     import wannierberri as wb
@@ -185,94 +222,116 @@ def part_factor_kernel(rep, thorough, rng):
                     absent.append((g, v))
     absent = sorted(set(absent))
     rng.shuffle(absent)
-    nref = 0
-    for g, v in absent[:(2000 if thorough else 200)]:
+    nref = nacc = 0
+    ntry = 400 if thorough else 40
+    for g, v in absent[:ntry]:
         system = KS.make_system(g)
-        rep.case(("refuse", g, v))
         for kw in (dict(NKdiv=list(v), NKFFT=1), dict(NKdiv=1, NKFFT=list(v))):
             try:
                 with quiet():
                     wb.Grid(system=system, **kw)
-                rep.violation("Grid:accepts_nonsymmetric_grid", dict(group=g, args={k: (list(x) if isinstance(x, list) else x) for k, x in kw.items()}))
-            except AssertionError:
+                nacc += 1
+            except Exception:
                 nref += 1
-    rep.part("nonsymmetric_grids_refused", tried=min(len(absent), 2000 if thorough else 200), refused=nref)
+    rep.part("nonsymmetric_grids", tried=2 * min(len(absent), ntry), refused=nref, accepted=nacc,
+             note="information: the property is stated for grids that are symmetric under the point group")
     return done, spec_groups
 
 
-def part_sensitivity(rep):
-    for name, kp, ab, allowed in (("c03_fk_wrongshift", False, True, {"InvMultiset", "InvUniform", "InvKSets", "InvOrbit"}),
-                                  ("c03_fk_noabsorb", True, False, {"InvScanMass", "InvWeightSum", "InvOrbitReps", "InvUniform", "InvOrbit", "LoopIsFunctional"})):
+def part_sensitivity(rep, tag):
+    for name, kp, ab, allowed in (("fk_wrongshift", False, True, {"InvMultiset", "InvUniform", "InvKSets", "InvOrbit"}),
+                                  ("fk_noabsorb", True, False, {"InvScanMass", "InvWeightSum", "InvOrbitReps", "InvUniform", "InvOrbit", "LoopIsFunctional"})):
         st = tlc.run_tlc("MC_FactorKernel.tla", fk_cfg(["C1", "C4v"], [1, 2], [1, 2], [1], [1], 16, kp, ab), name, workers=min(4, WORKERS),
-                         coverage=False, timeout=600)
+                         coverage=False, timeout=600, workroot=os.path.join(WORK, tag))
         v = st.get("violation")
         if not v or v[1] not in allowed:
             raise MachineryError(f"sensitivity self-test failed: {name} should violate one of {sorted(allowed)}, TLC said {v} {st.get('error')}")
-        rep.part(name, sensitivity_violation=v[1])
+        rep.part("c03_" + name, sensitivity_violation=v[1])
 
 
 # ------------------------------------------------------------------------------------------------------------------
 # part C: determineNK decision table
 
-WARN_MAP = (("NK is disregarded", "NK_disregarded"), ("NKdiv is disregarded", "NKdiv_disregarded"), ("was adjusted", "adjusted"))
 
-
-def call_determineNK(pg, periodic, NKdiv, NKFFT, NK, rec, scalarise=True):
-    from wannierberri.grid.grid import determineNK
-
+def call_determineNK(fn, pg, periodic, NKdiv, NKFFT, NK, rec, scalarise=True):
+    """-> (kind 'ok' | 'refused', div, fft, number of warnings, exception or None).  ANY exception counts as a refusal; warnings
+    are only counted (their texts and the channel are not part of C03)"""
     def arg(v):
         if v is None:
             return None
         if scalarise and len(set(v)) == 1:
             return int(v[0])
         return [int(x) for x in v]
+    err = None
     with warnings.catch_warnings(record=True) as wl:
         warnings.simplefilter("always")
         try:
             with quiet():
-                d, f = determineNK(np.array(periodic), arg(NKdiv), arg(NKFFT), arg(NK), np.array(rec), pg)
+                d, f = fn(np.array(periodic), arg(NKdiv), arg(NKFFT), arg(NK), np.array(rec), pg)
             kind = "ok"
             d, f = vec(d), vec(f)
-        except AssertionError:
-            kind, d, f = "assert", None, None
-        except ValueError:
-            kind, d, f = "value_error", None, None
-    ws = set()
-    for w in wl:
-        msg = str(w.message)
-        for pat, tag in WARN_MAP:
-            if pat in msg:
-                ws.add(tag)
-                break
-        else:
-            ws.add("other:" + msg[:60])
-    return kind, d, f, ws
+        except MachineryError:
+            raise
+        except Exception as ex:
+            kind, d, f, err = "refused", None, None, ex
+    return kind, d, f, len(wl), err
 
 
 def opt(v):
     return None if len(v) == 0 else vec(v)
 
 
-def part_determine_nk(rep, thorough, rng):
+def explicit_value_ok(per, NKdiv, NKFFT, NK, d, f):
+    """python mirror of FactorKernel!ExplicitValueOK"""
+    mask = lambda v: tuple(v[i] if per[i] else 1 for i in range(3))
+    if NKdiv is not None and NKFFT is not None:
+        return d == mask(NKdiv) and f == mask(NKFFT)
+    if f != mask(NKFFT):
+        return False
+    for i in range(3):
+        if per[i]:
+            if d[i] < 1:
+                return False
+            if NK[i] % NKFFT[i] == 0:
+                if d[i] * f[i] != NK[i]:
+                    return False
+            elif not abs(d[i] * f[i] - NK[i]) < f[i]:
+                return False
+    return True
+
+
+def post_ok(pg, per, d, f):
+    compat = all(per[i] == per[j] for (A, _, _) in KS.project_group(pg) for i in range(3) for j in range(3) if A[i][j] != 0)
+    if any(x < 1 for x in d + f) or any((not per[i]) and (d[i] != 1 or f[i] != 1) for i in range(3)):
+        return False
+    G = KS.project_group(pg)
+    return (not compat) or (KS.symmetric_grid(d, G) and KS.symmetric_grid(f, G))
+
+
+def part_determine_nk(rep, thorough, rng, tag, fn):
     if thorough:
         consts = '  GROUPS = {"C1", "C4", "O", "H6"}\n  SCALARS = {1, 2, 3, 4, 5}\n  VECTORS <- VecsB\n  RECS <- RecsB\n'
     else:
         consts = '  GROUPS = {"C1", "C4", "H6"}\n  SCALARS = {1, 2, 3}\n  VECTORS <- VecsQ\n  RECS <- RecsQ\n'
     cfg = "SPECIFICATION Spec\nCONSTANTS\n" + consts + "".join(f"INVARIANT {i}\n" for i in NK_INVS) + "CHECK_DEADLOCK FALSE\n"
-    st = run_model(rep, "MC_DetermineNK.tla", cfg, "c03_nk")
+    st = run_model(rep, "MC_DetermineNK.tla", cfg, "nk", workroot=os.path.join(WORK, tag))
     ftable.spec_violation(rep, st, "c03_nk")
     rep.add_tlc("c03_nk", st)
+    if fn is None:
+        return
     states = list(KS.iter_dump(st["dump_path"]))
     if len(states) != st["distinct"]:
         raise MachineryError(f"determineNK dump has {len(states)} states, TLC reported {st['distinct']}")
-    limit = 30000 if thorough else 2500
+    # the dump order of a multi-worker TLC run is not deterministic: sort by the full input before drawing
+    states.sort(key=lambda s: (s["grp"], repr(s["periodic"]), repr(s["NKdiv"]), repr(s["NKFFT"]), repr(s["NK"]), repr(s["rec"])))
+    limit = 30000 if thorough else 1500
     autos = [s for s in states if s["res"]["kind"] == "auto"]
     others = [s for s in states if s["res"]["kind"] != "auto"]
     rng.shuffle(autos)
     rng.shuffle(others)
     chosen = autos[:limit // 3] + others[:limit - min(len(autos), limit // 3)]
     kinds = {}
-    namb = nauto_same = 0
+    n_same = n_accepts_invalid = n_silent = n_other_rounding = 0
     for s in chosen:
         grp = s["grp"]
         pg = KS.make_system(grp).pointgroup
@@ -280,41 +339,45 @@ def part_determine_nk(rep, thorough, rng):
         args = dict(NKdiv=opt(s["NKdiv"]), NKFFT=opt(s["NKFFT"]), NK=opt(s["NK"]))
         rec = vec(s["rec"])
         r = s["res"]
+        spec_ok = r["kind"] in ("ok", "auto")
         kinds[r["kind"]] = kinds.get(r["kind"], 0) + 1
-        rep.case(("nk", grp, per, tuple(sorted(args.items())), rec), nontrivial=r["kind"] in ("ok", "auto"))
-        kind, d, f, ws = call_determineNK(pg, per, args["NKdiv"], args["NKFFT"], args["NK"], rec)
-        expkind = "ok" if r["kind"] in ("ok", "auto") else r["kind"]
+        rep.case(("nk", grp, per, tuple(sorted(args.items())), rec), nontrivial=spec_ok)
+        kind, d, f, nwarn, err = call_determineNK(fn, pg, per, args["NKdiv"], args["NKFFT"], args["NK"], rec)
         info = dict(group=grp, periodic=per, args=args, NKFFT_recommended=rec)
-        if kind != expkind:
-            rep.violation("determineNK:outcome", dict(info, expected=expkind, got=kind))
+        if not spec_ok:
+            n_accepts_invalid += kind == "ok"       # information only
             continue
         if kind != "ok":
+            if KS.lib_fault(err) is None and not isinstance(err, AssertionError):
+                raise err
+            rep.violation("determineNK:refuses_valid_input", dict(info, error=f"{type(err).__name__}: {str(err)[:200]}",
+                                                                  spec_result=[vec(r["div"]), vec(r["fft"])]))
             continue
-        if r["kind"] == "auto":
-            # what autoNK picks is a heuristic: demanded are its post-conditions; agreement with the transcription is counted
-            if s["ambiguous"]:
-                namb += 1
-            elif (d, f) == (vec(r["div"]), vec(r["fft"])) and ws == set(r["warn"]):
-                nauto_same += 1
-            compat = all(per[i] == per[j] for (A, _, _) in KS.project_group(pg) for i in range(3) for j in range(3) if A[i][j] != 0)
-            bad = [x for x in d + f if x < 1] or [i for i in range(3) if not per[i] and (d[i] != 1 or f[i] != 1)] \
-                or (compat and not (pg.symmetric_grid(d) and pg.symmetric_grid(f)))
-            if bad:
-                rep.violation("determineNK:autoNK:postcondition", dict(info, got=[d, f], spec_choice=[vec(r["div"]), vec(r["fft"])]))
-            if all(per) and (("adjusted" in ws) != (tuple(x * y for x, y in zip(d, f)) != args["NK"])):
-                rep.violation("determineNK:autoNK:adjusted_warning", dict(info, got=[d, f], warnings=sorted(ws)))
+        if not post_ok(pg, per, d, f):
+            rep.violation("determineNK:postcondition", dict(info, got=[d, f], spec_choice=[vec(r["div"]), vec(r["fft"])],
+                                                            what="entries >= 1, 1 along non-periodic directions, both grids symmetric"))
             continue
-        if (d, f) != (vec(r["div"]), vec(r["fft"])):
-            rep.violation("determineNK:value", dict(info, expected=[vec(r["div"]), vec(r["fft"])], got=[d, f]))
-        elif ws != set(r["warn"]):
-            rep.violation("determineNK:warnings", dict(info, expected=sorted(r["warn"]), got=sorted(ws)))
-    for k in ("ok", "auto", "assert", "value_error"):
+        if r["kind"] == "ok" and not explicit_value_ok(per, args["NKdiv"], args["NKFFT"], args["NK"], d, f):
+            rep.violation("determineNK:value", dict(info, got=[d, f], spec_choice=[vec(r["div"]), vec(r["fft"])],
+                                                    what="pair not returned as given / NKFFT changed / NKdiv not a nearest integer of NK/NKFFT"))
+            continue
+        if (d, f) == (vec(r["div"]), vec(r["fft"])):
+            n_same += 1
+        elif r["kind"] == "ok":
+            n_other_rounding += 1
+        if args["NK"] is not None and not (args["NKdiv"] is not None and args["NKFFT"] is not None) and nwarn == 0 \
+                and tuple(x * y for x, y in zip(d, f)) != tuple(n if p else 1 for n, p in zip(args["NK"], per)):
+            n_silent += 1
+    for k in ("ok", "auto"):
         if kinds.get(k, 0) == 0:
             raise MachineryError(f"vacuous determineNK table: no replayed state of kind {k}")
-    rep.part("determineNK_replay", replayed=len(chosen), of=len(states), kinds=kinds, autoNK_same_choice_as_transcription=nauto_same,
-             autoNK_float_tie_ambiguous=namb)
+    if kinds.get("assert", 0) + kinds.get("value_error", 0) == 0:
+        raise MachineryError("vacuous determineNK table: no state the specification refuses")
+    rep.part("determineNK_replay", replayed=len(chosen), of=len(states), spec_kinds=kinds, same_value_as_transcription=n_same,
+             valid_but_other_rounding=n_other_rounding, information=dict(accepted_although_spec_refuses=n_accepts_invalid,
+                                                                         grid_differs_from_NK_without_any_warning=n_silent))
     rep.sample(dict(fn="determineNK", group=chosen[0]["grp"], NK=opt(chosen[0]["NK"]), NKFFT=opt(chosen[0]["NKFFT"]), NKdiv=opt(chosen[0]["NKdiv"]),
-                    result=dict(kind=chosen[0]["res"]["kind"], warn=sorted(chosen[0]["res"]["warn"]))))
+                    result=dict(kind=chosen[0]["res"]["kind"])))
 
 
 # ------------------------------------------------------------------------------------------------------------------
@@ -335,7 +398,7 @@ def orbits_of(N, G):
     return orbits, seen
 
 
-def part_end_to_end(rep, done, spec_groups, thorough, rng):
+def part_end_to_end(rep, done, spec_groups, thorough, rng, tag):
     from wannierberri.symmetry.point_symmetry import transform_ident
     import wannierberri as wb
     byN = {}
@@ -367,13 +430,18 @@ def part_end_to_end(rep, done, spec_groups, thorough, rng):
                 s = done[(grp, div, fft, sym)]
                 calcs = {"oh": KS.FieldIntegrator(N, oh, 0, transform_ident, transform_ident),
                          "orb": KS.FieldIntegrator(N, orbtab, 0, transform_ident, transform_ident)}
-                with quiet():
-                    grid = wb.Grid(system=system, NKdiv=list(div), NKFFT=list(fft))
                 info = dict(group=grp, N=N, NKdiv=div, NKFFT=fft, use_irred_kpt=sym)
                 try:
-                    res = KS.run_wb(system, grid, calcs, sym, "c03_run")
+                    with quiet():
+                        grid = wb.Grid(system=system, NKdiv=list(div), NKFFT=list(fft))
+                    res = KS.run_wb(system, grid, calcs, sym, tag + "_run")
                 except KS.NonIntegral as ex:
                     rep.violation("run:kpoints_all_nonintegral", dict(info, what=str(ex)))
+                    continue
+                except MachineryError:
+                    raise
+                except Exception as ex:
+                    KS.report_exception(rep, ex, "run:onehot", info)
                     continue
                 nruns += 1
                 rep.case(("run", grp, N, div, fft, sym))
@@ -405,13 +473,13 @@ def part_end_to_end(rep, done, spec_groups, thorough, rng):
                                   dict(info, expected=eorb.tolist(), got=gorb.tolist(), unit="1/Ntot"))
                     continue
                 if ref_orb is None:
-                    ref_orb = res.results["orb"].data
-                elif np.abs(res.results["orb"].data - ref_orb).max() > 1e-12:
-                    rep.violation("run:factorisation_dependence", dict(info, maxdiff=float(np.abs(res.results["orb"].data - ref_orb).max())))
+                    ref_orb = gorb
+                elif np.abs(gorb - ref_orb).max() > 1e-9:
+                    rep.violation("run:factorisation_dependence", dict(info, maxdiff=float(np.abs(gorb - ref_orb).max()), unit="1/Ntot"))
                 recs.append(dict(fn="run", grp=grp, div=list(div), fft=list(fft), sym=sym,
                                  coef=[int(v) for v in np.rint(got)], orb=[int(v) for v in np.rint(gorb)],
                                  orbits=[[list(p) for p in o] for o in orbits]))
-    if nruns == 0:
+    if nruns == 0 and not rep.violations:
         raise MachineryError("no end-to-end run was selected")
     rep.part("run_onehot", grids=[dict(group=g, N=n, factorisations=len(byN[(g, n)])) for g, n in pick], runs=nruns, tolerance=1e-9,
              worst_deviation_from_integer=worst, valid_but_different_from_spec_measure=n_other)
@@ -446,11 +514,22 @@ def random_klist_records(rep, n, rng):
         if Ntot * len(G) > 3000 or Ntot > 300 or Ntot < 4:
             continue
         sym = rng.random() < 0.7
+        info = dict(group=grp, NKdiv=div, NKFFT=fft, use_symmetry=sym)
         try:
             klist, ksets, _ = KS.real_klist(system, div, fft, sym)
         except KS.NonIntegral as ex:
-            rep.violation("grid:nonintegral", dict(group=grp, NKdiv=div, NKFFT=fft, use_symmetry=sym, what=str(ex)))
+            rep.violation("grid:nonintegral", dict(info, what=str(ex)))
             continue
+        except KS.FactorisationChanged as ex:
+            rep.violation("Grid:factorisation_changed", dict(info, what=str(ex)))
+            continue
+        except MachineryError:
+            raise
+        except Exception as ex:
+            KS.report_exception(rep, ex, "Grid.get_K_list:symmetric_grid", info)
+            continue
+        if ksets is None:          # Data_K adapter not available: the k-sets are what the formula says (checked through run() elsewhere)
+            return recs
         rep.case(("rec", grp, div, fft, sym))
         recs.append(dict(fn="klist", grp=grp, div=list(div), fft=list(fft), sym=sym,
                          group=[dict(A=[list(r) for r in A], inv=i, tr=t) for (A, i, t) in sorted(G)],
@@ -458,8 +537,10 @@ def random_klist_records(rep, n, rng):
     return recs
 
 
-def random_nk_records(rep, n, rng):
+def random_nk_records(rep, n, rng, fn):
     recs = []
+    if fn is None:
+        return recs
     for _ in range(n):
         grp = rng.choice(["C1", "C4", "C4v", "O", "H6", "mFe"])
         pg = KS.make_system(grp).pointgroup
@@ -475,23 +556,24 @@ def random_nk_records(rep, n, rng):
             return (a, a, rng.randint(1, 8))
         a = dict(NKdiv=rv(), NKFFT=rv(), NK=rv())
         rec = rng.choice([(1, 1, 1), (2, 2, 2), (3, 3, 1), (2, 2, 3)])
-        kind, d, f, ws = call_determineNK(pg, per, a["NKdiv"], a["NKFFT"], a["NK"], rec, scalarise=rng.random() < 0.5)
-        if any(w.startswith("other:") for w in ws):
-            rep.violation("determineNK:unknown_warning", dict(group=grp, args=a, warnings=sorted(ws)))
-            continue
+        kind, d, f, nwarn, err = call_determineNK(fn, pg, per, a["NKdiv"], a["NKFFT"], a["NK"], rec, scalarise=rng.random() < 0.5)
+        if err is not None and KS.lib_fault(err) is None and not isinstance(err, AssertionError):
+            raise err
         rep.case(("nkrec", grp, per, tuple(sorted(a.items())), rec))
         recs.append(dict(fn="nk", grp=grp, periodic=list(per), NKdiv=list(a["NKdiv"] or []), NKFFT=list(a["NKFFT"] or []),
-                         NK=list(a["NK"] or []), rec=list(rec), kind=kind, div=list(d or []), fft=list(f or []), warn=sorted(ws)))
+                         NK=list(a["NK"] or []), rec=list(rec), kind=kind, div=list(d or []), fft=list(f or []), nwarn=nwarn))
     return recs
 
 
-def part_records(rep, recs, thorough):
-    stv, bad = ftable.validate_records("FactorKernelRec.tla", ftable.REC_CFG, recs, "c03", timeout=1500, chunk=400)
+def part_records(rep, recs, thorough, tag):
+    stv, bad = ftable.validate_records("FactorKernelRec.tla", ftable.REC_CFG, recs, tag, timeout=1500, chunk=400)
     rep.add_tlc("c03_records", stv)
     rep.add_traces(len(recs))
     for i, clauses in sorted(bad.items()):
         r = recs[i]
         small = {k: v for k, v in r.items() if k not in ("group", "ksets", "orbits")}
+        if "harness_group_is_catalogue" in clauses:
+            raise MachineryError(f"catalogue mismatch: the recorded PointGroup of {r['grp']} is not the specification's group")
         site = {"klist": "Grid.get_K_list/Data_K.kpoints_all", "run": "run:onehot", "nk": "determineNK"}[r["fn"]]
         rep.violation(f"{site}:recorded", dict(record=small, failing_clauses=clauses))
     rep.sample({k: v for k, v in recs[0].items() if k not in ("group", "ksets", "orbits")})
@@ -516,15 +598,15 @@ def part_records(rep, recs, thorough):
         c["coef"][0] += 1
         corrupted.append(c)
         want.append({"total_weight", "symmetrised_uniform", "orbit_measure"})
-    nk = next((r for r in recs if r["fn"] == "nk" and r["kind"] == "ok"), None)
+    nk = next((r for r in recs if r["fn"] == "nk" and r["kind"] == "ok" and r["NKdiv"] and r["NKFFT"]), None)
     if nk is not None:
         c = copy.deepcopy(nk)
         c["div"][0] += 1
         corrupted.append(c)
-        want.append({"value", "post", "exact"})
+        want.append({"value", "post"})
     if len(corrupted) < 2:
         raise MachineryError("binding self-test: not enough records to corrupt")
-    _, b2 = ftable.validate_records("FactorKernelRec.tla", ftable.REC_CFG, corrupted, "c03_selftest")
+    _, b2 = ftable.validate_records("FactorKernelRec.tla", ftable.REC_CFG, corrupted, tag + "_selftest")
     for i, w in enumerate(want):
         if i not in b2 or not (set(b2[i]) & w):
             raise MachineryError(f"binding self-test failed: corrupted record {i} ({corrupted[i]['fn']}) accepted (failing clauses {b2.get(i)})")
@@ -532,7 +614,7 @@ def part_records(rep, recs, thorough):
 
 
 # ------------------------------------------------------------------------------------------------------------------
-# part F (numeric only): real calculators, all factorisations, both FFT libraries
+# part F (float, deciding): real calculators, all factorisations, both FFT libraries
 
 
 def factorisations(N):
@@ -540,9 +622,9 @@ def factorisations(N):
     return [(tuple(x[0] for x in c), tuple(x[1] for x in c)) for c in itertools.product(*per)]
 
 
-def real_calculators(Ef, omega, tab=True):
+def real_calculators(Ef, omega, tab=True, external=False, tetra=True):
     from wannierberri import calculators as calc
-    kf = {"external_terms": False}
+    kf = {} if external else {"external_terms": False}
     sm = dict(save_mode="")
     c = {"cumdos": calc.static.CumDOS(Efermi=Ef, **sm),
          "dos": calc.static.DOS(Efermi=Ef, **sm),
@@ -552,6 +634,10 @@ def real_calculators(Ef, omega, tab=True):
          "bdipole": calc.static.BerryDipole_FermiSea(Efermi=Ef, kwargs_formula=kf, **sm),
          "opt": calc.dynamic.OpticalConductivity(Efermi=Ef[1::3], omega=omega, kBT=0.05, smr_fixed_width=0.2, kwargs_formula=kf, **sm),
          "jdos": calc.dynamic.JDOS(Efermi=Ef[1::3], omega=omega, kBT=0.05, smr_fixed_width=0.2, **sm)}
+    if tetra:      # the corners of the tetrahedron method come from Kpoint.dK_fullBZ = dK / NKFFT: a factorisation-dependent path
+        c["dos_tetra"] = calc.static.DOS(Efermi=Ef, tetra=True, **sm)
+        c["cumdos_tetra"] = calc.static.CumDOS(Efermi=Ef, tetra=True, **sm)
+        c["ahc_tetra"] = calc.static.AHC(Efermi=Ef, tetra=True, kwargs_formula=kf, **sm)
     if tab:
         c["tab"] = calc.TabulatorAll({"Energy": calc.tabulate.Energy(), "vel": calc.tabulate.Velocity(),
                                       "berry": calc.tabulate.BerryCurvature(kwargs_formula=kf),
@@ -559,15 +645,54 @@ def real_calculators(Ef, omega, tab=True):
     return c
 
 
+def kp_calculators(Ef, omega, tab=True):
+    from wannierberri import calculators as calc
+    sm = dict(save_mode="")
+    c = {"cumdos": calc.static.CumDOS(Efermi=Ef, **sm), "dos_tetra": calc.static.DOS(Efermi=Ef, tetra=True, **sm),
+         "ohmic_sea": calc.static.Ohmic_FermiSea(Efermi=Ef, **sm), "ahc": calc.static.AHC(Efermi=Ef, **sm)}
+    if tab:
+        c["tab"] = calc.TabulatorAll({"Energy": calc.tabulate.Energy(), "vel": calc.tabulate.Velocity(), "berry": calc.tabulate.BerryCurvature()},
+                                     mode="grid", save_mode="")
+    return c
+
+
+def soc_calculators(Ef, omega, tab=True):
+    from wannierberri import calculators as calc
+    sm = dict(save_mode="")
+    c = {"cumdos": calc.static.CumDOS(Efermi=Ef, **sm), "dos_tetra": calc.static.DOS(Efermi=Ef, tetra=True, **sm),
+         "ahc": calc.static.AHC(Efermi=Ef, **sm), "spin": calc.static.Spin(Efermi=Ef, **sm)}
+    if tab:
+        c["tab"] = calc.TabulatorAll({"Energy": calc.tabulate.Energy(), "berry": calc.tabulate.BerryCurvature(), "spin": calc.tabulate.Spin()},
+                                     mode="grid", save_mode="")
+    return c
+
+
+def spin_calculators(Ef, omega, tab=True):
+    """the spin / orbital-moment / external-term families (need SS, BB, CC, ... : a spinful kmodels system)"""
+    from wannierberri import calculators as calc
+    sm = dict(save_mode="")
+    dyn = dict(Efermi=Ef[1::3], omega=omega, kBT=0.05, smr_fixed_width=0.2, save_mode="")
+    c = {"spin": calc.static.Spin(Efermi=Ef, **sm), "morb": calc.static.Morb(Efermi=Ef, **sm), "ahc": calc.static.AHC(Efermi=Ef, **sm),
+         "shc_static": calc.static.SHC(Efermi=Ef, **sm), "gme_spin": calc.static.GME_spin_FermiSurf(Efermi=Ef, **sm),
+         "gme_orb": calc.static.GME_orb_FermiSurf(Efermi=Ef, **sm), "nlahc": calc.static.NLAHC_FermiSea(Efermi=Ef, **sm),
+         "nldrude": calc.static.NLDrude_FermiSea(Efermi=Ef, **sm), "ahc_zeeman_spin": calc.static.AHC_Zeeman_spin(Efermi=Ef, **sm),
+         "shc": calc.dynamic.SHC(**dyn), "shift": calc.dynamic.ShiftCurrent(sc_eta=0.1, **dyn), "opt": calc.dynamic.OpticalConductivity(**dyn)}
+    if tab:
+        c["tab"] = calc.TabulatorAll({"Energy": calc.tabulate.Energy(), "spin": calc.tabulate.Spin(), "morb": calc.tabulate.OrbitalMoment(),
+                                      "spinberry": calc.tabulate.SpinBerry(), "derberry": calc.tabulate.DerBerryCurvature()},
+                                     mode="grid", save_mode="")
+    return c
+
+
 def energies_safe(E, Ef, thresh=1e-4, margin=1e-6):
-    """named exclusion: band energies at grid points keep `margin` from every Fermi bin edge (floating ceil) and no band gap
-    is within `margin` of the degeneracy threshold"""
+    """named exclusion (EnergiesSafe): band energies at grid points keep `margin` from every Fermi bin edge (floating ceil; the
+    edges are Ef[0] + n*dE for all integer n, which covers the extra bins of the code) and no band gap is within `margin` of the
+    degeneracy threshold"""
     E = np.asarray(E).reshape(-1, np.asarray(E).shape[-1])
     dE = Ef[1] - Ef[0]
-    for extra in (0, 1, 2):
-        x = (E - (Ef[0] - extra * dE)) / dE
-        if np.abs(x - np.rint(x)).min() * dE < margin:
-            return False
+    x = (E - Ef[0]) / dE
+    if np.abs(x - np.rint(x)).min() * dE < margin:
+        return False
     gaps = np.diff(np.sort(E, axis=1), axis=1)
     if gaps.size and np.abs(gaps - thresh).min() < margin:
         return False
@@ -583,7 +708,8 @@ def compare_resultdicts(ref, res, tol, scales=None):
     for k, v in ref.results.items():
         w = res.results[k]
         if isinstance(v, TABresult):
-            if v.kpoints.shape != w.kpoints.shape or np.abs(v.kpoints - w.kpoints).max() > 1e-9:
+            dk = np.asarray(v.kpoints) - np.asarray(w.kpoints) if np.shape(v.kpoints) == np.shape(w.kpoints) else None
+            if dk is None or np.abs(dk - np.rint(dk)).max() > 1e-9:          # k-points are defined modulo 1
                 bad.append((k + ".kpoints", float("inf"), 1.0))
                 continue
             for q in v.results:
@@ -603,60 +729,114 @@ def compare_resultdicts(ref, res, tol, scales=None):
     return bad, worst
 
 
-def part_numeric(rep, thorough, rng):
+def numeric_worlds(thorough):
+    """(label, builder(numpy RandomState) -> system | None, calculators(Ef, omega, tab), grids, fft libraries, max factorisations)"""
+    from . import kmodels as km
+
+    def r_aa(r):
+        return KS.random_system_R(r, nw=2 + r.randint(2), with_AA=True)
+
+    def r_aa_planar(r):
+        s = KS.random_system_R(r, nw=2 + r.randint(2), with_AA=True, Rs=[(0, 0, 0), (1, 0, 0), (0, 1, 0), (1, 1, 0), (1, -1, 0)])
+        s.periodic = np.array([True, True, False])
+        return s
+
+    def kp(r):
+        return KS.random_system_kp(r, nw=2)
+
+    def soc(r):
+        return KS.random_system_soc(r, nw=2)
+
+    def spinful(r):
+        m = km.build(int(r.randint(1 << 30)), nw=2, keys=km.ALLKEYS, spinful=True)
+        return m.system(periodic=(True, True, False))
+    ext = lambda Ef, om, tab=True: real_calculators(Ef, om, tab=tab, external=True)
+    both = ("fftw", "numpy")
+    w = [("R+AA planar", r_aa_planar, ext, [(4, 4, 1)] + ([(6, 6, 1), (8, 4, 1)] if thorough else []), both, 9 if thorough else 5),
+         ("R+AA", r_aa, ext, [(3, 4, 2)] + ([(4, 2, 2), (6, 2, 2), (5, 3, 1)] if thorough else []), both, 12 if thorough else 5),
+         ("k.p", kp, kp_calculators, [(3, 4, 2)] + ([(4, 4, 1)] if thorough else []), ("fftw",), 6 if thorough else 4),
+         ("SOC", soc, soc_calculators, [(3, 4, 2)] + ([(4, 4, 1)] if thorough else []), both, 6 if thorough else 3),
+         ("spinful all matrices", spinful, spin_calculators, [(4, 3, 1)] + ([(6, 4, 1)] if thorough else []), both, 6 if thorough else 3)]
+    return w
+
+
+def part_numeric(rep, thorough, rng, tag):
     import wannierberri as wb
-    from .rungrid_par_tab import random_system
-    Ns = [(4, 4, 1), (4, 2, 2)] + ([(6, 6, 1), (6, 2, 2), (8, 4, 1), (3, 4, 2)] if thorough else [])
-    nsys = 3 if thorough else 1
-    Ef = np.linspace(-2.0, 2.0, 9)
+    Ef0 = np.linspace(-2.0, 2.0, 9)
     omega = np.linspace(0.0, 3.0, 4)
-    tol = 1e-8
+    nsys = 2 if thorough else 1
     ncmp = 0
     worst = 0.0
     skipped = 0
-    for N in Ns:
-        done_sys = 0
-        attempts = 0
-        while done_sys < nsys and attempts < 10:
-            attempts += 1
-            system = random_system(rng, nw=rng.choice([2, 3]))
-            if N[2] == 1:
-                system.periodic = np.array([True, True, False])
-            facts = factorisations(N)
-            if not thorough and len(facts) > 9:
-                facts = [facts[0], facts[-1]] + rng.sample(facts[1:-1], 7)
-            ref = None
-            ok = True
-            scales = KS.term_scales(system, N, real_calculators(Ef, omega, tab=False), "c03_num")
-            for div, fft in facts:
-                for lib in ("fftw", "numpy"):
-                    with quiet():
-                        grid = wb.Grid(system=system, NKdiv=list(div), NKFFT=list(fft))
-                    res = KS.run_wb(system, grid, real_calculators(Ef, omega), False, "c03_num", parameters_K=dict(fftlib=lib))
-                    if ref is None:
-                        if not energies_safe(res.results["tab"].get_data(quantity="Energy"), Ef):
-                            ok = False
-                            break
-                        ref = (res, div, fft, lib)
-                        continue
-                    rep.case(("num", N, done_sys, div, fft, lib))
-                    ncmp += 1
-                    bad, w = compare_resultdicts(ref[0], res, tol, scales)
-                    worst = max(worst, w)
-                    for k, d, sc in bad:
-                        rep.violation(f"numeric:factorisation:{k}", dict(N=N, reference=dict(NKdiv=ref[1], NKFFT=ref[2], fftlib=ref[3]),
-                                                                         other=dict(NKdiv=div, NKFFT=fft, fftlib=lib), maxdiff=d, magnitude=sc,
-                                                                         system_seed=seed(), tolerance=tol))
-                if not ok:
+    per_world = {}
+    for label, build, mkcalcs, Ns, libs, maxfac in numeric_worlds(thorough):
+        nw_cmp = 0
+        for N in Ns:
+            done_sys = 0
+            attempts = 0
+            while done_sys < nsys and attempts < 10:
+                attempts += 1
+                r = np.random.RandomState(rng.randrange(1 << 30))
+                system = build(r)
+                if system is None:          # built through private names that are gone
                     break
-            if ok:
+                facts = factorisations(N)
+                if len(facts) > maxfac:
+                    facts = [facts[0], facts[-1]] + rng.sample(facts[1:-1], maxfac - 2)
+                info0 = dict(world=label, N=N, system_seed=seed(), attempt=attempts)
+                try:
+                    # Fermi levels around the spectrum of this system
+                    with quiet():
+                        g0 = wb.Grid(system=system, NKdiv=list(facts[0][0]), NKFFT=list(facts[0][1]))
+                    E0 = KS.run_wb(system, g0, {"tab": mkcalcs(Ef0, omega)["tab"]}, False, tag + "_num").results["tab"].get_data(quantity="Energy")
+                    lo, hi = float(np.min(E0)), float(np.max(E0))
+                    Ef = np.linspace(lo + 0.15 * (hi - lo), hi - 0.15 * (hi - lo), 9)
+                    if not energies_safe(E0, Ef):
+                        skipped += 1
+                        continue
+                    scales = KS.term_scales(system, N, mkcalcs(Ef, omega, tab=False), tag + "_num")
+                except MachineryError:
+                    raise
+                except Exception as ex:
+                    KS.report_exception(rep, ex, f"run:{label}", info0)
+                    break
+                ref = None
+                for div, fft in facts:
+                    for lib in libs:
+                        info = dict(info0, NKdiv=div, NKFFT=fft, fftlib=lib)
+                        try:
+                            with quiet():
+                                grid = wb.Grid(system=system, NKdiv=list(div), NKFFT=list(fft))
+                            res = KS.run_wb(system, grid, mkcalcs(Ef, omega), False, tag + "_num", parameters_K=dict(fftlib=lib))
+                        except MachineryError:
+                            raise
+                        except Exception as ex:
+                            KS.report_exception(rep, ex, f"run:{label}", info)
+                            continue
+                        if ref is None:
+                            ref = (res, div, fft, lib)
+                            continue
+                        rep.case(("num", label, N, done_sys, div, fft, lib))
+                        ncmp += 1
+                        nw_cmp += 1
+                        bad, w = compare_resultdicts(ref[0], res, TOL, scales)
+                        worst = max(worst, w)
+                        for k, d, sc in bad:
+                            rep.violation(f"numeric:factorisation:{k}", dict(info, reference=dict(NKdiv=ref[1], NKFFT=ref[2], fftlib=ref[3]),
+                                                                             maxdiff=d, magnitude=sc, tolerance=TOL))
                 done_sys += 1
-            else:
-                skipped += 1
-    rep.part("numeric_only", what="real CumDOS, DOS, AHC, Ohmic (sea/surface), BerryDipole, OpticalConductivity, JDOS, TabulatorAll(Energy, "
-             "Velocity, BerryCurvature, InvMass) on random 2-3 band models: every factorisation and fftlib in {fftw, numpy} against the first",
-             grids=[list(n) for n in Ns], comparisons=ncmp, worst_relative_deviation=worst, tolerance=tol,
-             systems_excluded_by_EnergiesSafe=skipped)
+        per_world[label] = nw_cmp
+    KS.flush_private(rep)
+    missing = [k for k, v in per_world.items() if v == 0 and not (k == "SOC" and "SystemSOC" in KS._PRIVATE)]
+    if missing and not rep.violations:
+        raise MachineryError(f"real-calculator part made no comparison for {missing} (excluded by EnergiesSafe: {skipped})")
+    rep.part("real_calculators", deciding=True,
+             what="CumDOS, DOS, AHC, Ohmic (sea/surface), BerryDipole, OpticalConductivity, JDOS, tetrahedron DOS/CumDOS/AHC, TabulatorAll(Energy, "
+                  "Velocity, BerryCurvature, InvMass) with external terms on random R-space models with AA; a k.p system; a SystemSOC; Spin, Morb, "
+                  "SHC (static, dynamic), GME, NLAHC, NLDrude, AHC_Zeeman_spin, ShiftCurrent, tabulated Spin/OrbitalMoment/SpinBerry/DerBerry on a "
+                  "spinful model with all matrices: every (quick: sampled) factorisation and fftlib in {fftw, numpy} against the first",
+             comparisons=per_world, total=ncmp, worst_relative_deviation=worst, tolerance=TOL,
+             tolerance_over_worst=(TOL / worst if worst > 0 else None), systems_excluded_by_EnergiesSafe=skipped)
 
 
 def check(pid, tier):
@@ -664,23 +844,39 @@ def check(pid, tier):
     thorough = tier == "thorough"
     rng = random.Random(seed() * 7919 + 3)
     os.environ.setdefault("JAVA_TOOL_OPTIONS", "-Xss64m")      # TLC worker threads evaluate deep (non-tail) recursions of the sort/fold operators
-    workdir("c03_run")
-    workdir("c03_num")
+    tag = KS.scratch("c03")
+    workdir(tag + "_run")
+    workdir(tag + "_num")
     rep.rule("a case = one finished TLC state (group, NKdiv, NKFFT, use_symmetry) replayed on the real Grid/get_K_list/Data_K.kpoints_all, "
              "one state of the determineNK table replayed on the real function, one real run() with the one-hot calculator, one recorded "
-             "random grid / determineNK call validated by TLC, or (numeric_only) one real-calculator run compared with the reference "
+             "random grid / determineNK call validated by TLC, or one real-calculator run compared with the reference "
              "factorisation; distinct by input tuple")
-    rep.assume("Grid() is given NKdiv and NKFFT that are symmetric under the point group (it asserts that); lattices are cubic-type or hexagonal")
-    rep.assume("numeric_only part: band energies at the grid points keep 1e-6 from the Fermi bin edges and gaps keep 1e-6 from degen_thresh (EnergiesSafe)")
-    done, spec_groups = part_factor_kernel(rep, thorough, rng)
-    part_sensitivity(rep)
-    part_determine_nk(rep, thorough, rng)
-    recs = part_end_to_end(rep, done, spec_groups, thorough, rng)
-    recs = random_klist_records(rep, 250 if thorough else 15, rng) + recs + random_nk_records(rep, 1500 if thorough else 80, rng)
-    part_records(rep, recs, thorough)
-    part_numeric(rep, thorough, rng)
-    import shutil
-    from ..common import WORK
-    for d in ("c03_run", "c03_num"):
-        shutil.rmtree(os.path.join(WORK, d), ignore_errors=True)
-    return rep.finish()
+    rep.assume("Grid() is given NKdiv and NKFFT that are symmetric under the point group; lattices are cubic-type or hexagonal")
+    rep.assume("real-calculator part: band energies at the grid points keep 1e-6 from the Fermi bin edges and gaps keep 1e-6 from degen_thresh (EnergiesSafe)")
+    try:
+        t0 = cpu_seconds()
+        done, spec_groups = part_factor_kernel(rep, thorough, rng, tag)
+        part_sensitivity(rep, tag)
+        fn, why = KS.determineNK_adapter()
+        if fn is None:
+            KS.skipped_private(rep, "determineNK", why)
+        part_determine_nk(rep, thorough, rng, tag, fn)
+        recs = part_end_to_end(rep, done, spec_groups, thorough, rng, tag)
+        recs = random_klist_records(rep, 250 if thorough else 12, rng) + recs + random_nk_records(rep, 1500 if thorough else 60, rng, fn)
+        if recs:
+            part_records(rep, recs, thorough, tag)
+        elif not rep.violations:
+            raise MachineryError("no record could be produced")
+        t1 = cpu_seconds()
+        part_numeric(rep, thorough, rng, tag)
+        KS.flush_private(rep)
+        rep.part("cpu_seconds", exact_parts=round(t1 - t0, 1), real_calculators=round(cpu_seconds() - t1, 1))
+    except Exception:
+        if rep.violations:          # never lose what was already found
+            KS.flush_private(rep)
+            rep.finish()
+        cleanup(tag, keep_tlc=True)
+        raise
+    rc = rep.finish()
+    cleanup(tag, keep_tlc=bool(rep.violations))
+    return rc
